@@ -18,7 +18,7 @@ LABELS = ["S", "L", "E"]
 
 KINDS = ["all_declared", "leaf_gap_desc", "post_to_parent", "undecl_acct", "undecl_comm_posting",
          "undecl_comm_closing", "undecl_comm_opening", "undecl_tag", "report_comm", "price_comm", "dup_decl",
-         "empty_comm", "invalid_chart", "equity"]
+         "empty_comm", "invalid_chart", "equity", "closing_only_comm"]
 
 INVALID_ACCOUNTS = ["a b", "", ":a", "a::b", "a:", " a", "a:-b", "a:b c", "a:_x"]
 INVALID_COMMS = ["1EUR", "", "E UR", "E:UR", "-EUR", "_EUR"]
@@ -201,6 +201,17 @@ class C12(PropBase):
                 txns.append(simple_txn([post(pool[0], amt, u)], {"acct": pool[-1], "comment": None}))
             accts, cs, tgs = declare_all()
             cs = [c for c in cs if c != x]
+        elif kind == "closing_only_comm":
+            x = rng.choice(EXTRA_COMMS)
+            c0 = comms[0]
+            k = rng.choice("@=")
+            q = rng.choice(["2", "3", "12.5"])
+            def cl(sign):
+                return {"comm": c0, "opening": None, "closing": {"k": k, "v": ("120" if k == "@" else sign + "240"), "c": x}}
+            amt = "2"
+            txns.append(simple_txn([post(pool[0], "-" + amt, cl("-")), post(pool[-1], amt, cl(""))], None))
+            accts, cs, tgs = declare_all()
+            cs = [c for c in cs if c != x]
         elif kind == "undecl_tag":
             tg = rng.choice(["zz", "trip:zz", "t9"])
             txns.append(simple_txn([post(pool[0], "1")], {"acct": pool[-1], "comment": None},
@@ -286,6 +297,14 @@ class C12(PropBase):
         runs = []
         for label in LABELS:
             cfg = {"strict": label == "S", "permit_empty": base["permit_empty"]}
+            # the effective mode may come from the file or from the command-line overlap (`--strict.mode`):
+            # charts, synthetic parents and every later check must follow the EFFECTIVE flag
+            via = rng.random()
+            if via < 0.35:
+                cfg["strict"] = not (label == "S")
+                cfg["ov_strict"] = label == "S"
+            elif via < 0.5:
+                cfg["ov_strict"] = label == "S"
             cfg.update(charts if label != "E" else {"accounts": [], "commodities": [], "tags": []})
             cfg.update(extra)
             runs.append({"label": label, "cfg": cfg})
